@@ -499,6 +499,13 @@ static struct kobj *new_kobj(unsigned c, struct mon_rng *r) {
         case FAM_CURSOR:
             k->koff = (uint8_t)mon_below(r, 4);
             memmove(k->bytes + k->koff, k->bytes, cl->len);
+            /* a cursor key is a view: what is stored right behind (and in front of) it is arbitrary and must not matter */
+            for (size_t g = 0; g < 8 && k->koff + cl->len + g < sizeof(k->bytes); ++g) {
+                k->bytes[k->koff + cl->len + g] = (uint8_t)mon_rand(r);
+            }
+            for (size_t g = 0; g < k->koff; ++g) {
+                k->bytes[g] = (uint8_t)mon_rand(r);
+            }
             k->p.cur.len = cl->len;
             k->p.cur.ptr = (cl->len == 0 && mon_chance(r, 1, 2)) ? NULL : k->bytes + k->koff;
             break;
